@@ -367,6 +367,53 @@ func GraphOrdering(w *load.World, c *core.Collector) {
 							}
 						}
 					}
+					// where the function loads the list (it calls the vector store), every return that did
+					// not load is behind the flag: "the list is not empty" is no substitute — a node read
+					// from disk that was given one neighbour before its list was ever loaded has a
+					// one-element list and a complete edge list
+					loads := false
+					for _, bb := range f.Blocks {
+						for _, ii := range bb.Instrs {
+							if lc, ok := ii.(*ssa.Call); ok && lc.Call.IsInvoke() && lc.Call.Method.Name() == "GetMany" {
+								loads = true
+							}
+						}
+					}
+					if loads {
+						var flagEdges []ssax.Edge
+						for _, bb := range f.Blocks {
+							ifi, ok := bb.Instrs[len(bb.Instrs)-1].(*ssa.If)
+							if !ok {
+								continue
+							}
+							cond, neg := ifi.Cond, false
+							if u, ok := cond.(*ssa.UnOp); ok && u.Op == token.NOT {
+								cond, neg = u.X, true
+							}
+							if lc, ok := cond.(*ssa.Call); ok && lc.Call.StaticCallee() != nil && lc.Call.StaticCallee().String() == "(*sync/atomic.Bool).Load" && fieldOfAddr(lc.Call.Args[0]) == "vamana.graphNode.isNeighLoaded" {
+								s := 0
+								if neg {
+									s = 1
+								}
+								flagEdges = append(flagEdges, ssax.Edge{From: bb, Succ: s})
+							}
+						}
+						badSkip := ""
+						for _, ex := range successExits(f) {
+							if ssax.Precedes(in, ex.In) {
+								continue
+							}
+							if !onlyViaAny(flagEdges, ex.In.Block()) {
+								badSkip = w.At(ex.In)
+							}
+						}
+						k2 := "loaded-only-by-flag:" + load.FnKey(f)
+						if badSkip != "" {
+							c.Add("ORDERING", k2, core.Violation, badSkip, "the neighbour list is taken for loaded on a path that has not seen the loaded flag set (for instance because the list is not empty): a node that got one neighbour before its list was loaded keeps a one-element list in the warm cache while its edge list on disk is complete — warm answers differ from cold ones", "C08", "C09")
+						} else {
+							c.Add("ORDERING", k2, core.OK, w.Position(f.Pos()), "", "C08", "C09")
+						}
+					}
 					key := "publish-after-init:" + load.FnKey(f)
 					if published {
 						c.Add("ORDERING", key, core.OK, w.At(in), "", "C09")
@@ -456,5 +503,74 @@ func GraphOrdering(w *load.World, c *core.Collector) {
 	}
 	if nMax < 1 {
 		c.Add("ORDERING", "anchor:max-node-id", core.Undecided, "", "no update of the recorded maximum node id found", "C10")
+	}
+}
+
+// countIsLength: where robust pruning (or any code of the graph package) compares the result of a
+// node method with the degree bound, that result is the length of the node's edge list on every
+// return of the method. A method changed to return the position of the neighbour (len-1, or the
+// index where it was found) makes "count >= bound" stop one edge late: nodes are persisted with
+// bound+1 edges.
+func countIsLength(w *load.World, c *core.Collector) {
+	props := []string{"C10"}
+	n := 0
+	done := map[*ssa.Function]bool{}
+	for _, f := range w.Fns {
+		if load.PkgPath(f) != load.Mod+"/shard/index/vamana" {
+			continue
+		}
+		for _, b := range f.Blocks {
+			for _, in := range b.Instrs {
+				bo, ok := in.(*ssa.BinOp)
+				if !ok {
+					continue
+				}
+				switch bo.Op {
+				case token.LSS, token.LEQ, token.GTR, token.GEQ, token.EQL, token.NEQ:
+				default:
+					continue
+				}
+				for _, pr := range [][2]ssa.Value{{bo.X, bo.Y}, {bo.Y, bo.X}} {
+					if !ssax.Prov(pr[1])["field:DegreeBound"] && !deepHas(w, pr[1], "field:DegreeBound") {
+						continue
+					}
+					call, ok := pr[0].(*ssa.Call)
+					if !ok {
+						continue
+					}
+					g := call.Call.StaticCallee()
+					if g == nil || !ssax.InModule(g) || done[g] || len(g.Blocks) == 0 {
+						continue
+					}
+					done[g] = true
+					n++
+					bad := ""
+					for _, gb := range g.Blocks {
+						ret, ok := gb.Instrs[len(gb.Instrs)-1].(*ssa.Return)
+						if !ok || len(ret.Results) != 1 {
+							continue
+						}
+						isLen := false
+						if lc, ok := ret.Results[0].(*ssa.Call); ok {
+							if bi, ok := lc.Call.Value.(*ssa.Builtin); ok && bi.Name() == "len" {
+								isLen = true
+							}
+						}
+						if !isLen {
+							bad = w.At(ret)
+						}
+					}
+					key := "count-is-length:" + load.FnKey(g)
+					if bad != "" {
+						c.Add("DEGREE", key, core.Violation, bad, "a value that is compared with the degree bound is not the length of the edge list on this return (a position, or a length less one): the comparison stops one edge late and the node is stored with more edges than the bound", props...)
+					} else {
+						c.Add("DEGREE", key, core.OK, w.Position(g.Pos()), "", props...)
+					}
+				}
+			}
+		}
+	}
+	if n == 0 {
+		c.Add("DEGREE", "count-is-length:none", core.OK, "", "no method result is compared with the degree bound", props...)
 	}
 }
